@@ -518,6 +518,10 @@ pub struct YamlSerializer<'a, W: Write> {
     /// double quotes when the string contains escape sequences or single quotes.
     quote_all: bool,
 
+    /// The last thing written is a block scalar with keep chomping (`|+`): a blank line written
+    /// now would become part of its content.
+    after_kept_line_breaks: bool,
+
     /// When enabled, emit YAML 1.2 directive and use YAML 1.2-friendly heuristics.
     yaml_12: bool,
     /// Whether we have started emitting the current document.
@@ -557,6 +561,7 @@ impl<'a, W: Write> YamlSerializer<'a, W> {
             current_map_depth: None,
             block_parent_col: None,
             quote_all: false,
+            after_kept_line_breaks: false,
             yaml_12: false,
             doc_started: false,
         }
@@ -685,6 +690,7 @@ impl<'a, W: Write> YamlSerializer<'a, W> {
     /// Internal: called by most emitters before writing tokens.
     #[inline]
     fn write_indent(&mut self, depth: usize) -> Result<()> {
+        self.after_kept_line_breaks = false;
         if self.at_line_start {
             if !self.doc_started {
                 self.doc_started = true;
@@ -1146,6 +1152,7 @@ impl<'a, 'b, W: Write> Serializer for &'a mut YamlSerializer<'b, W> {
                 return Ok(());
             }
 
+            let mut keeps_line_breaks = false;
             match style {
                 StrStyle::Literal => {
                     // Determine trailing newline count to select chomp indicator:
@@ -1167,6 +1174,7 @@ impl<'a, 'b, W: Write> Serializer for &'a mut YamlSerializer<'b, W> {
                         1 => {} // clip is the default, no indicator needed
                         _ => self.out.write_char('+')?,
                     }
+                    keeps_line_breaks = trailing_nl >= 2;
                     self.newline()?;
 
                     // Emit body lines. For non-empty content, write each line exactly once.
@@ -1235,6 +1243,7 @@ impl<'a, 'b, W: Write> Serializer for &'a mut YamlSerializer<'b, W> {
             }
             // reset auto flag after using pending style
             self.pending_str_from_auto = false;
+            self.after_kept_line_breaks = keeps_line_breaks;
             return Ok(());
         }
         self.write_space_if_pending()?;
@@ -1373,7 +1382,8 @@ impl<'a, 'b, W: Write> Serializer for &'a mut YamlSerializer<'b, W> {
             NAME_SPACE_AFTER => {
                 // Serialize the value, then emit an empty line after (only in block style).
                 let result = value.serialize(&mut *self);
-                if self.in_flow == 0 {
+                // After a block scalar with keep chomping the blank line would be content.
+                if self.in_flow == 0 && !self.after_kept_line_breaks {
                     // Emit an extra blank line after the value
                     self.newline()?;
                 }
